@@ -27,11 +27,17 @@ type Interp struct {
 	MaxDepth int
 	globals  *activation
 	root     *scope
+	// LenientNames: an undefined name makes the run undecided instead of being a harness error (used by
+	// the incremental monitor, where a failed piece can skip declarations that later pieces refer to).
+	LenientNames bool
 	// Host hooks: extra builtins supplied by a monitor (name -> implementation).
 	Host map[string]func(in *Interp, args []Value) (Value, *RErr)
 }
 
 type cell struct{ v Value }
+
+// unsetV marks a hoisted top-level function name whose declaration has not run yet.
+type unsetV struct{}
 
 // activation is one function activation (or the main program): one cell per declaration site.
 type activation struct {
@@ -145,16 +151,32 @@ var builtinNames = map[string]bool{
 // Run evaluates a program and returns its outcome. ok=false means the model could not decide the
 // program (step budget exceeded or an undecided construct was hit) and it must be discarded.
 func (in *Interp) Run(p *Program) (out Outcome, ok bool) {
+	in.Start()
+	return in.RunPiece(p.Stmts)
+}
+
+// Start prepares an empty global environment (for incremental evaluation with RunPiece).
+func (in *Interp) Start() {
 	act := &activation{cells: map[any]*cell{}}
 	in.globals = act
 	in.root = newScope(nil, act)
-	// hoist top-level named functions (name exists, value nil until the declaration runs)
-	for _, st := range p.Stmts {
+}
+
+// RunPiece evaluates more top-level statements in the environment left by earlier pieces (the way a
+// REPL feeds one compiler and one VM). Out is the output printed by this piece only; a failing piece
+// keeps the effects it had before failing.
+func (in *Interp) RunPiece(stmts []Stmt) (out Outcome, ok bool) {
+	act := in.globals
+	// hoist the piece's top-level named functions (name exists, value nil until the declaration runs)
+	for _, st := range stmts {
 		if fd, isFd := st.(*FuncDecl); isFd {
-			in.root.declare(fd.F.Name, fd, NilV{})
+			if _, exists := in.root.names[fd.F.Name]; !exists {
+				in.root.declare(fd.F.Name, fd, unsetV{})
+			}
 			in.root.consts[fd.F.Name] = true
 		}
 	}
+	outStart := in.out.Len()
 	var result Value = NilV{}
 	var rerr *RErr
 	func() {
@@ -170,7 +192,7 @@ func (in *Interp) Run(p *Program) (out Outcome, ok bool) {
 				}
 			}
 		}()
-		v, c := in.execBlock(p.Stmts, in.root, false)
+		v, c := in.execBlock(stmts, in.root, false)
 		if c == ctlNone {
 			result = v
 		}
@@ -178,7 +200,7 @@ func (in *Interp) Run(p *Program) (out Outcome, ok bool) {
 	if in.Over || in.Tags["undecided"] {
 		return Outcome{}, false
 	}
-	out.Out = in.out.String()
+	out.Out = in.out.String()[outStart:]
 	out.Ticks = in.ticks
 	if rerr != nil {
 		out.Err = rerr.Cat
@@ -254,6 +276,10 @@ func (in *Interp) exec(st Stmt, sc *scope) (Value, ctl) {
 			} else {
 				cl, ok := sc.cellOf(name)
 				if !ok {
+					if in.LenientNames {
+						in.tag("undecided")
+						return NilV{}, ctlNone
+					}
 					panic(fmt.Sprintf("model: undefined %q", name))
 				}
 				cl.v = items[i]
@@ -265,6 +291,10 @@ func (in *Interp) exec(st Stmt, sc *scope) (Value, ctl) {
 	case *IncDec:
 		cl, ok := sc.cellOf(s.Name)
 		if !ok {
+			if in.LenientNames {
+				in.tag("undecided")
+				return NilV{}, ctlNone
+			}
 			panic(fmt.Sprintf("model: undefined %q", s.Name))
 		}
 		d := int64(1)
@@ -366,6 +396,10 @@ func (in *Interp) execAssign(s *Assign, sc *scope) (Value, ctl) {
 	case *Ident:
 		cl, ok := sc.cellOf(t.Name)
 		if !ok {
+			if in.LenientNames {
+				in.tag("undecided")
+				return NilV{}, ctlNone
+			}
 			panic(fmt.Sprintf("model: assignment to undefined %q", t.Name))
 		}
 		if s.Op == "=" {
@@ -688,6 +722,12 @@ func (in *Interp) eval(e Expr, sc *scope) Value {
 		return b.String()
 	case *Ident:
 		if cl, ok := sc.cellOf(x.Name); ok {
+			if _, unset := cl.v.(unsetV); unset {
+				// a hoisted function name read before its declaration ran (possible after a failed REPL
+				// piece): the implementation holds an uninitialised slot there; not pinned
+				in.tag("undecided")
+				return NilV{}
+			}
 			return cl.v
 		}
 		if in.Host != nil {
@@ -697,6 +737,11 @@ func (in *Interp) eval(e Expr, sc *scope) Value {
 		}
 		if builtinNames[x.Name] {
 			return &BuiltinV{Name: x.Name}
+		}
+		if in.LenientNames {
+			// a name whose declaration was skipped by a failed piece: not pinned
+			in.tag("undecided")
+			return NilV{}
 		}
 		panic(fmt.Sprintf("model: undefined variable %q", x.Name))
 	case *Prefix:
@@ -1236,4 +1281,18 @@ func (in *Interp) Print(args []Value) {
 		ifs[i] = PrintArg(a)
 	}
 	in.out.WriteString(fmt.Sprintln(ifs...))
+}
+
+// Globals returns the typed rendering of every global variable of the current environment.
+func (in *Interp) Globals() map[string]string {
+	res := map[string]string{}
+	if in.root == nil {
+		return res
+	}
+	for name, site := range in.root.names {
+		if c := in.globals.cells[site]; c != nil && c.v != nil {
+			res[name] = Render(c.v)
+		}
+	}
+	return res
 }
